@@ -537,3 +537,28 @@ func sameVertexSet(a, b view) bool {
 	}
 	return true
 }
+
+// SnapshotOracles evaluates the state oracles of the given properties (C03, C09, C10, C02) on one node of an
+// arbitrary ledger world (used by the SCHED scenarios, which do not go through the SPACE model).
+func SnapshotOracles(w *world.LW, n *world.Node, props ...string) []common.Violation {
+	m := &Model{W: w, counters: map[string]int{}, Cfg: Cfg{Supply: w.Supply}}
+	m.nodes = []*world.Node{n}
+	v := mkView(n.Book.VerifSnapshot())
+	for _, x := range v.S.Vertices {
+		w.Ref.Learn(x)
+	}
+	var out []common.Violation
+	for _, p := range props {
+		switch p {
+		case "C03":
+			out = append(out, m.checkC03(0, v, "", "")...)
+		case "C09":
+			out = append(out, m.checkC09(0, nil, v, "", "")...)
+		case "C10":
+			out = append(out, m.checkC10(0, v)...)
+		case "C02":
+			out = append(out, m.checkC02(0, v)...)
+		}
+	}
+	return out
+}
